@@ -24,8 +24,6 @@ import (
 	"github.com/slackhq/nebula/udp"
 )
 
-const VerifConvergeMaxHostInfosPerVpnIp = MaxHostInfosPerVpnIp
-
 type VerifConvergeNode struct {
 	c        *Control
 	f        *Interface
